@@ -455,7 +455,84 @@ pub fn trainer_flags(s: &Setup, rt: bool, g: &Option<Result<Gen, ()>>) -> String
 }
 
 fn flags(s: &Setup, rt: bool, g: &Option<Result<Gen, ()>>) -> String {
-    flags_core(&s.chardef, s.k, s.slash, rt, g)
+    let seeds = format!("{}.{}.{}.{}", hex(s.lex.as_bytes()), hex(s.unk.as_bytes()), hex(s.feature_def.as_bytes()), hex(s.rewrite_def.as_bytes()));
+    let classes = match g {
+        Some(Ok(g)) => classes_flag(s.lex.as_bytes(), s.chardef.as_bytes(), s.unk.as_bytes(), s.feature_def.as_bytes(), s.rewrite_def.as_bytes(), g, s.user.as_bytes()),
+        _ => "na".to_string(),
+    };
+    format!("{} CLASSES={classes} SEEDS={seeds}", flags_core(&s.chardef, s.k, s.slash, rt, g))
+}
+
+/// C18, second half: every word of the emitted lexicons carries connection ids whose rows in
+/// bigram.left / bigram.right list, position by position, the expansion of the RIGHT / LEFT templates
+/// over the word's rewritten features (`*` where the expansion yields no feature or training dropped it).
+/// The expansions come from `expected_bigram_tuples` (a fresh configuration read from the seed files).
+/// `1`, `0:<what>`, or `na` (files unreadable).  User rows are checked when their ids were assigned
+/// by the model (the emitted row differs from `…,0,0,0,…` input) — rows with explicit ids are copied.
+pub fn classes_flag(lex: &[u8], chardef: &[u8], unk: &[u8], fdef: &[u8], rdef: &[u8], g: &Gen, user_in: &[u8]) -> String {
+    let r = guarded(|| -> Option<String> {
+        let parse = |b: &[u8]| vibrato::verif::parse_lex_csv(b).ok();
+        let mut words: Vec<(String, u16, u16, String)> = vec![];
+        for (tag, file) in [("lex", &g.lex), ("unk", &g.unk)] {
+            for (i, e) in parse(file)?.into_iter().enumerate() {
+                words.push((format!("{tag}:{i}"), e.1, e.2, e.4));
+            }
+        }
+        if !g.user.is_empty() {
+            // the emitted rows follow the input rows; a row given as `…,0,0,0,…` had its parameters assigned by the model
+            let input = parse(user_in)?;
+            for (i, e) in parse(&g.user)?.into_iter().enumerate() {
+                if input.get(i).map_or(false, |x| x.1 == 0 && x.2 == 0 && x.3 == 0) {
+                    words.push((format!("user:{i}"), e.1, e.2, e.4));
+                }
+            }
+        }
+        let rows: Vec<(String, u32)> = words.iter().map(|w| (w.3.clone(), 0u32)).collect();
+        let exp = vibrato::trainer::verif::expected_bigram_tuples(lex, chardef, unk, fdef, rdef, &rows)?;
+        let table = |b: &[u8]| -> Vec<Option<Vec<String>>> {
+            String::from_utf8_lossy(b)
+                .lines()
+                .map(|l| match l.split_once('\t') {
+                    Some((_, "")) => None,
+                    Some((_, cells)) => Some(vibrato::verif::parse_csv_row(cells)),
+                    None => None,
+                })
+                .collect()
+        };
+        let (tl, tr) = (table(&g.left), table(&g.right));
+        let check = |what: &str, id: u16, tab: &Vec<Option<Vec<String>>>, want: &Vec<Option<String>>| -> Option<String> {
+            if id == 0 {
+                return None;
+            }
+            match tab.get(usize::from(id) - 1) {
+                None => Some(format!("{what}-id-{id}-not-listed")),
+                Some(None) => None, // a class without any feature (virtual edge): nothing listed
+                Some(Some(cells)) => {
+                    if cells.len() != want.len() {
+                        return Some(format!("{what}-id-{id}-has-{}-cells-for-{}-templates", cells.len(), want.len()));
+                    }
+                    for (k, (c, w)) in cells.iter().zip(want).enumerate() {
+                        let ok = c == "*" || Some(c) == w.as_ref();
+                        if !ok {
+                            return Some(format!("{what}-id-{id}-position-{k}"));
+                        }
+                    }
+                    None
+                }
+            }
+        };
+        for (w, (el, er)) in words.iter().zip(&exp) {
+            // bigram.left[left id] lists the RIGHT-template expansions, bigram.right[right id] the LEFT-template ones
+            if let Some(bad) = check("left", w.1, &tl, er).or_else(|| check("right", w.2, &tr, el)) {
+                return Some(format!("0:{}:{bad}", w.0));
+            }
+        }
+        Some("1".to_string())
+    });
+    match r {
+        Some(Some(x)) => x,
+        _ => "na".to_string(),
+    }
 }
 
 /// The harness-side predicates of a `GEN` line; `CHARDEF` is carried so that a replay can recompute them.
@@ -520,14 +597,22 @@ pub fn run(mode: &str, seed: u64, n: usize, out: &mut dyn Write) {
         // user lexicon on the reloaded model vs on the in-memory model
         let user = s.user.as_bytes();
         let (obs_b, g3) = observe_gen(&image, Some(user));
+        let mut det_user = true;
         let g3m = guarded(|| {
             if m0.read_user_lexicon(user).is_err() {
                 return Some(Err(()));
             }
-            generate(&mut m0)
+            let first = generate(&mut m0);
+            // generating again from the same model (user entries included) gives the same files
+            let again = generate(&mut m0);
+            det_user = match (&first, &again) {
+                (Some(Ok(a)), Some(Ok(b))) => same_files(a, b),
+                (a, b) => a.is_none() == b.is_none(),
+            };
+            first
         })
         .flatten();
-        let rt_b = match (&g3, &g3m) {
+        let rt_b = det_user && match (&g3, &g3m) {
             (Some(Ok(a)), Some(Ok(b))) => same_files(a, b),
             (None, None) => true,
             (Some(Err(())), Some(Err(()))) => true,
